@@ -208,13 +208,32 @@ func c14GenStatic(t *rapid.T) []netip.Addr {
 
 func c14Gen(t *rapid.T) c14Case {
 	addrs := rapid.SliceOfN(rapid.Custom(c13GenIP), 0, 30).Draw(t, "addrs")
-	return c14Case{
+	c := c14Case{
 		Addrs:    addrs,
 		Static:   c14GenStatic(t),
 		Lifetime: rapid.Int64Range(0, int64(48*time.Hour)).Draw(t, "lifetime"),
 		Perm:     vkGenPerm(t, len(addrs)),
 		SrcErr:   rapid.IntRange(0, 29).Draw(t, "srcerr") == 0,
 	}
+	if rapid.IntRange(0, 3).Draw(t, "overlap") == 0 {
+		// the operator also listed one of the interface's own addresses as a static server - now and then the very one
+		// the wildcard picks (what the option then looks like is not stated; that the plugin is left alone, is)
+		var own []netip.Addr
+		if best, ok := verifref.BestRDNSS(addrs); ok && rapid.Bool().Draw(t, "overlapbest") {
+			own = append(own, best)
+		} else if len(addrs) > 0 {
+			if a := rapid.SampledFrom(addrs).Draw(t, "overlapaddr").Address.Addr(); a.Is6() {
+				own = append(own, a)
+			}
+		}
+		for _, a := range own {
+			if !slices.Contains(c.Static, a) {
+				c.Static = append(c.Static, a)
+			}
+		}
+		slices.SortFunc(c.Static, func(a, b netip.Addr) int { return a.Compare(b) })
+	}
+	return c
 }
 
 func c14Seqs(maxLen int) func(yield func(c14Case) bool) {
